@@ -195,6 +195,8 @@ def gen_filter_bait(g, cfg):
             t["tags"] = g.pick(FILTER_TAGS)  # a single tag may be given as a string
         if g.coin(0.3):
             t["opname"] = g.pick([x["name"] for x in tasks if x is not t] + ["shared-op"])
+        if t["op"] == "sim-op" and g.coin(0.35):
+            t["optype"] = g.pick(["sim_op", "sim-op_v2"])  # a user-defined operation type is any string, underscores included
     if g.coin(0.3):
         cfg["decoy"] = {"first": g.coin(0.6), "tags": {t["name"]: g.pick([None, g.sample(FILTER_TAGS, g.choose(3)), g.pick(FILTER_TAGS)]) for t in tasks}}
 
@@ -210,7 +212,11 @@ def gen_filters(g, cfg):
             t = g.pick(tasks)
             filters.append(t["opname"] if "opname" in t and g.coin(0.4) else t["name"])
         elif k == 1:
-            filters.append("type:" + g.pick(tasks)["op"])
+            t = g.pick(tasks)
+            ty = t.get("optype", t["op"])
+            if g.coin(0.12):
+                ty = ty.replace("-", "_") if "-" in ty and g.coin(0.5) else ty.replace("_", "-")  # the type of no task, or of another one
+            filters.append("type:" + ty)
         elif k == 2:
             filters.append("tag:" + g.pick(FILTER_TAGS))
         elif pars:
@@ -293,7 +299,7 @@ def gen_fault(g, cfg):
 # ---------------------------------------------------------------------------------------------
 def matches(t, flt):
     if flt.startswith("type:"):
-        return t["op"] == flt[5:]
+        return t.get("optype", t["op"]) == flt[5:]
     if flt.startswith("tag:"):
         tags = t.get("tags") or []
         return flt[4:] in ([tags] if isinstance(tags, str) else tags)
@@ -1298,7 +1304,7 @@ class RaceHarness(Harness):
             return
 
         def sig(t, cb):
-            return (t["name"], t["op"], t["clients"], t.get("iterations"), t.get("warmup-iterations"), t.get("time-period"), sorted([t["tags"]] if isinstance(t.get("tags"), str) else (t.get("tags") or [])), cb == t["name"], cb == "any")
+            return (t["name"], t.get("optype", t["op"]), t["clients"], t.get("iterations"), t.get("warmup-iterations"), t.get("time-period"), sorted([t["tags"]] if isinstance(t.get("tags"), str) else (t.get("tags") or [])), cb == t["name"], cb == "any")
 
         want = []
         for el in expected:
